@@ -36,7 +36,7 @@ def shards(tier, seed):
 
 
 def floors(tier):
-    f = {"rewrite:compared": 1500, "history:runs": 150, "history:calls": 1500, "history:results_compared_with_untouched_copy": 300}
+    f = {"rewrite:compared": 1500, "history:runs": 150, "history:calls": 1500, "history:results_compared_with_untouched_copy": 300, "history:metric_with_non_graph_target": 15}
     for r in ("copy", "unwrap", "group", "remove_identity", "assign_noise_empty"):
         f["rewrite:" + r] = 150
     for c in ("compile", "metric", "solver", "assign_noise", "monte_carlo", "compare", "rewrite_on_copy", "export", "compile_initial"):
@@ -258,6 +258,10 @@ class Pool:
         t = pauli.random_stabilizer_group(rng, n0)
         self.objs["initial_s"] = m["QuantumState"](gq.ptab_to_clifford(t, rng), rep_type="s")
         self.objs["initial_dm"] = m["QuantumState"](dense.projector_of_group(t), rep_type="dm")
+        # targets that are not graph states (a conversion through the graph form would change them), sized for circuit0
+        t2 = pauli.random_stabilizer_group(rng, n0)
+        self.objs["target_ng_s"] = m["QuantumState"](gq.ptab_to_clifford(t2, rng), rep_type="s")
+        self.objs["target_ng_dm"] = m["QuantumState"](dense.projector_of_group(t2), rep_type="dm")
 
     def fingerprints(self):
         out = {}
@@ -303,8 +307,13 @@ def do_call(pool, name, rng, ctx):
         st = comp.compile(c)
         which = int(rng.integers(4))
         if which == 0:
-            tk = ["target_g", "target_s", "target_dm"][int(rng.integers(3))]
+            tk = ["target_g", "target_s", "target_dm", "target_ng_s", "target_ng_dm", "target_ng_dm"][int(rng.integers(6))]
             tq = pool.objs[tk]
+            if tk.startswith("target_ng"):
+                c = pool.objs["circuit0"]
+                ck = "circuit0"
+                st = comp.compile(c)
+                ctx.count("history:metric_with_non_graph_target")
             if tq.n_qubits == st.n_qubits and tq.rep_type in ("s", "dm"):
                 gm.Infidelity(tq).evaluate(st, c)
                 return f"Infidelity({tk}).evaluate(compile({ck}))"
